@@ -75,6 +75,9 @@ def c02(tier):
     run.add_jobs(jobs_for(e2, {"pause": 1, "cancel": 1, "sample": sizes(tier, 3, 5), "max_nodes": sizes(tier, 1200, 6000)}, s))
     run.add_jobs(jobs_for(F.curated_delay() + F.curated_retry()[:6], {"delayed": True, "pause": 1, "cancel": 1,
                                                                      "max_nodes": sizes(tier, 1500, 6000)}, s))
+    # run-time errors (an expression that fails, or renders to the wrong type) end in failed unless a cancellation
+    # is in progress
+    run.add_jobs(jobs_for(F.fault_family(("type", "str")), {"pause": 1, "cancel": 1, "max_nodes": sizes(tier, 500, 3000)}, s))
     return run.finish("model_checking",
                       "definitions x outcomes x report orders x every placement of one pause(+resume, also while still pausing) and one cancel; "
                       "E2 alphabet (actions that pause/cancel themselves, go pending, time out) on curated shapes incl. with-items",
@@ -289,7 +292,7 @@ def c05(tier):
 def c11(tier):
     run = P.Run("C11", tier, ["C11_"], conform=True, conform_budget=sizes(tier, 15000, 100000))
     s = run.seed
-    kinds = ("undef", "key", "type", "func")
+    kinds = ("undef", "key", "type", "func", "str")
     fam = F.fault_family(kinds)
     run.add_mc([d for d in fam if d["fault"]["pos"] not in ("action", "input", "items", "conc", "delay")][::4], ["C11"],
                max_pause=1, replay=True)
